@@ -17,6 +17,14 @@ Proof. reflexivity. Qed.
 Lemma wrap8_idem x : wrap8 (wrap8 x) = wrap8 x.
 Proof. rewrite !wrap8_mod. apply Z.mod_mod. lia. Qed.
 
+(* operand order of the symmetric comparisons (==, np.all(a == b)) is not part of the function: normalise it, so that
+   `key_len == key_lens[row, col]` / `np.all(lhh[row, col] == key_array)` written the other way round still ties *)
+Ltac norm_sym :=
+  repeat match goal with
+         | |- context [?a =? klen ?c] => lazymatch a with klen _ => fail | _ => rewrite (Z.eqb_sym a (klen c)) end
+         | |- context [keqb (ckey ?c) ?arr] => lazymatch arr with ckey _ => fail | _ => rewrite (keqb_sym (ckey c) arr) end
+         end.
+
 (* ---------------- _add l.86-97 ---------------- *)
 Lemma tie_hh_add_cell (cl : cell) (arr : key) (key_len value : Z) :
   0 <= cnt cl <= hh_cap -> 0 <= value <= hh_cap ->
@@ -27,7 +35,7 @@ Proof.
   unfold gen_hh_add_cell, cell_add, cell_triple. cbv zeta.
   rewrite wrap32_cap, (wrap32_small value) by lia.
   rewrite (wrap64_small (hh_cap - cnt cl)) by lia.
-  rewrite !wrap32_wrap64, wrap8_idem.
+  rewrite !wrap32_wrap64, wrap8_idem. norm_sym.
   destruct ((klen cl =? key_len) && keqb arr (ckey cl)).
   - destruct (value <? hh_cap - cnt cl); reflexivity.
   - destruct (value >? cnt cl); reflexivity.
@@ -61,7 +69,7 @@ Lemma tie_hh_max_count_row (mc : Z) (cl : cell) (arr : key) (key_len : Z) :
   gen_hh_max_count_row key keqb mc (ckey cl) (cnt cl) (klen cl) arr key_len = max_count_row_hand mc cl arr key_len.
 Proof.
   intros Hk. unfold gen_hh_max_count_row, max_count_row_hand. cbv zeta.
-  rewrite (wrap8_small key_len) by lia. reflexivity.
+  rewrite (wrap8_small key_len) by lia. norm_sym. reflexivity.
 Qed.
 
 (* ---------------- the model's loops iterate exactly the tied bodies ---------------- *)
